@@ -689,6 +689,27 @@ func (c *Ctx) decodeStore(f *FA, x *bvCtx, t *recTable, fk string, val ssa.Value
 				}
 			}
 			if isByteSlice(src.Type()) {
+				// append(field, φ(nil, octets)...): appending nil appends nothing, so the one alternative that
+				// is not nil is what is appended, under the condition of its edge
+				if ph, isPhi := src.(*ssa.Phi); isPhi {
+					var real []valAlt
+					alts := phiAlternatives(ph, ph.Block(), 0)
+					for _, a := range alts {
+						if !isNilConst(a.val) {
+							real = append(real, a)
+						}
+					}
+					if len(alts) > 1 && len(real) == 1 {
+						src = real[0].val
+						if ac := c.altCond(f, x, real[0]); ac != "" && !strings.Contains(cond, ac) {
+							if cond == "" {
+								cond = ac
+							} else {
+								cond = cleanConds(append(strings.Split(cond, " && "), strings.Split(ac, " && ")...))
+							}
+						}
+					}
+				}
 				root, lo, hi, open := f.relSpan(src)
 				_, isParamOrPhi := root.(*ssa.Parameter)
 				if _, isPhi := root.(*ssa.Phi); isPhi {
@@ -793,6 +814,32 @@ func (c *Ctx) decodeStore(f *FA, x *bvCtx, t *recTable, fk string, val ssa.Value
 		return
 	case *ssa.Const:
 		return
+	case *ssa.Phi:
+		// a byte string selected by a merge (the result of an inlined helper with several returns): one
+		// conditional row per alternative; the alternative "what the field held before" stores nothing new
+		if isByteSlice(v.Type()) {
+			alts := phiAlternatives(v, v.Block(), 0)
+			if len(alts) > 1 {
+				for _, a := range alts {
+					if k, isF := fieldKeyOfLoad(a.val); isF && strings.TrimPrefix(k, "field:") == fk {
+						continue
+					}
+					if isNilConst(a.val) {
+						continue
+					}
+					acond := c.altCond(f, x, a)
+					if cond != "" && !strings.Contains(acond, cond) {
+						if acond == "" {
+							acond = cond
+						} else {
+							acond = cleanConds(append(strings.Split(acond, " && "), strings.Split(cond, " && ")...))
+						}
+					}
+					c.decodeStore(f, x, t, fk, a.val, acond, pos, fn)
+				}
+				return
+			}
+		}
 	}
 	if !pointerLike(val.Type()) {
 		t.addUnresolved(fmt.Sprintf("%s: stored value %s not understood (%s)", fk, val.Name(), pos))
